@@ -119,8 +119,8 @@ def run(ctx, replay_case):
         ccs_ = []
         for p in c.meta["parts"]:
             ccs_.append(dict(p[4][3])["commandCode"][2] if p[0] == "Command" else ccs_[-1])
-        exp = [f"O {p[0]} cc={cc_}" for p, cc_ in zip(c.meta["parts"], ccs_)]
-        ob = [" ".join(l.split(" ")[:3]) for l in ob]
+        # type, command code and the whole object (the generator's value tree, rendered like the implementation's object)
+        exp = [f"O {p[0]} cc={cc_} {gen.obj_str(p[4])}" for p, cc_ in zip(c.meta["parts"], ccs_)]
         if ob != exp:
             nobj += 1
             k, e, g = __import__("suites").first_diff(exp, ob)
